@@ -178,3 +178,92 @@ def layout(seed, tier):
             items.append(runner.Item(('layout', w, k), LAYOUT_PROG, [str(k)] + v, w=w, s=200,
                                      meta={'family': 'layout', 'classifier': {'seq': 'layout'}}))
     return items
+
+
+# ------------------------------------------------------------------------------------------------ entry-point binding
+def entry_binding(seed, tier):
+    """every order of scalar parameters around at most one array parameter, every array form"""
+    items = []
+    scal = {'i': ('int', lambda n: 'write(%s); write(\',\');' % n, ['-7', '300']),
+            'b': ('byte', lambda n: 'write(%s is int); write(\',\');' % n, ['65', '255']),
+            's': ('string', lambda n: 'write(%s); write(%s.length); write(\',\');' % (n, n), ['héllo', ''])}
+    arrs = {'I': ('int[]', 'for (int k = 0; k < %(n)s.length; k += 1) { write(%(n)s[k]); write(\';\'); } %(n)s[0] = 5; write(%(n)s[0]);', [['1', '-2', '30000'], ['4']]),
+            'C': ('const int[]', 'for (int k = 0; k < %(n)s.length; k += 1) { write(%(n)s[k]); write(\';\'); }', [['9', '8'], []]),
+            'B': ('byte[]', 'write(%(n)s); %(n)s[0] = \'!\'; write(%(n)s);', [['72', '105'], ['0', '255', '10']]),
+            'D': ('const byte[]', 'write(%(n)s); write(%(n)s.length);', [['33'], []]),
+            'S': ('const string[]', 'for (int k = 0; k < %(n)s.length; k += 1) { write(%(n)s[k]); write(%(n)s[k].length); write(\';\'); }', [['ab', '', 'çé'], []])}
+    import itertools
+    shapes = set()
+    for nsc in (0, 1, 2, 3):
+        for sc in itertools.permutations('ibs', nsc):
+            shapes.add(''.join(sc))
+            for a in arrs:
+                for pos in range(nsc + 1):
+                    shapes.add(''.join(sc[:pos]) + a + ''.join(sc[pos:]))
+    shapes = sorted(shapes)
+    if tier == 'quick':
+        random.Random(seed).shuffle(shapes)
+        shapes = shapes[:60]
+    for sh in shapes:
+        params, body = [], []
+        for j, ch in enumerate(sh):
+            n = 'p%d' % j
+            if ch in scal:
+                params.append('%s %s' % (scal[ch][0], n))
+                body.append(scal[ch][1](n))
+            else:
+                params.append('%s %s' % (arrs[ch][0], n))
+                body.append(arrs[ch][1] % {'n': n})
+        src = 'empty @is_you(%s) { write(\'[\'); %s write(\']\'); }' % (', '.join(params), ' '.join(body))
+        for v in (0, 1):
+            args = []
+            ok = True
+            for ch in sh:
+                if ch in scal:
+                    args.append(scal[ch][2][v])
+                else:
+                    vals = arrs[ch][2][v]
+                    if not vals and ('[0]' in arrs[ch][1]):
+                        vals = arrs[ch][2][0]
+                    args += vals
+            for w in ([2] if tier == 'quick' else [2, 3, 8]):
+                items.append(runner.Item(('entry', sh, v, w), src, args, w=w, s=100,
+                                         meta={'family': 'entry_binding', 'classifier': {'seq': 'entry_binding'}}))
+    return items
+
+
+MISC = [
+    ('builtins', 'empty @is_you(int a) { write(\'a\'); sleep(a); debug(); progress(); sleep(0); write(\'b\'); if (a == 1) { all_is_win(); } if (a == 2) { all_is_broken(); } write(\'c\'); }', [['0'], ['1'], ['2'], ['-1'], ['32767']]),
+    ('overloads', '''int f(int a) { return 1; } int f(byte a) { return 2; } int f(bool a) { return 3; } int f(string a) { return 4; }
+int f(const int[] a) { return 5; } int f(const byte[] a) { return 6; } int f(int a, int b) { return 7; } int f(byte a, int b) { return 8; }
+empty @is_you(int i, byte b) { write(f(i)); write(f(b)); write(f(i > 0)); write(f("s")); write(f([i, i])); write(f([b, b])); write(f(5)); write(f('c'));
+  write(f(i, i)); write(f(b, i)); write(f(b, b)); write(f([1, 2])); write(f("s" is byte[])); write(f(true)); write([65, 66]); write([b, 'x']); }''', [['3', '4']]),
+    ('recursion', '''int fact(int n) { if (n <= 1) { return 1; } return n * fact(n - 1); }
+int fib(int n) { if (n < 2) { return n; } return fib(n - 1) + fib(n - 2); }
+bool even(int n) { if (n == 0) { return true; } return odd(n - 1); } bool odd(int n) { if (n == 0) { return false; } return even(n - 1); }
+string pick(int n) { if (n > 2) { return pick(n - 1); } if (n == 2) { return "two"; } return "few"; }
+empty @is_you(int n) { write(fact(n)); write(' '); write(fib(n)); write(' '); write(even(n)); write(pick(n)); }''', [['0'], ['1'], ['5'], ['7']]),
+    ('shadowing', '''int x = 1; int y = 2; byte z = 'z'; const int K = 9;
+int get() { return x * 10 + y; }
+empty bump() { x += 1; }
+empty @is_you(int y) { write(x); write(y); write(get()); { int x = 5; write(x); bump(); write(x); write(get()); { byte z = 'q'; write(z); } write(z); } write(x); int K2 = K + x; write(K2);
+  for (int x = 0; x < 2; x += 1) { write(x); bump(); } write(x); string x2 = "s"; write(x2); }''', [['7'], ['-3']]),
+    ('strings_as_values', '''string g = "glob";
+string sel(bool c, string a, string b) { if (c) { return a; } return b; }
+empty @is_you(string s, int k) { string t = s; s = "new"; write(t); write(s); string[] arr = [t, s, g, "lit"]; arr[1] = sel(k > 0, arr[0], arr[3]); g = arr[1];
+  for (int i = 0; i < arr.length; i += 1) { write(arr[i]); write(arr[i].length); write(\',\'); } write(g); write(g[0]); write(sel(k < 0, "abc", "de")[1]); write("" is bool); write(t is bool); }''', [['in', '1'], ['', '-1'], ['héé', '0']]),
+    ('aliasing', '''empty inc(int[] a) { for (int i = 0; i < a.length; i += 1) { a[i] += 1; } }
+int first(const int[] a) { return a[0]; }
+empty @is_you(int n) { int[] a = [n, 2, 3]; int[] b = a; b[0] = 10; write(a[0]); inc(a); write(b[0]); write(first(b)); const int[] c = [7, 8]; write(first(c)); bool[] f = [true, false]; bool[] h = f; h[1] = true; write(f[1]);
+  byte[] q = ['a', 'b']; byte[] r = q; r[0] += 1; write(q); int[] d = a; inc(d); inc(b); write(a[2]); }''', [['1'], ['-5']]),
+]
+
+
+def misc(seed, tier):
+    items = []
+    for name, src, argss in MISC:
+        for a in argss:
+            for w in ([2, 3] if tier == 'quick' else [2, 3, 4, 8]):
+                items.append(runner.Item(('misc', name, tuple(a), w), src, a, w=w, s=200,
+                                         meta={'family': 'misc_' + name, 'classifier': {'seq': name}}))
+    return items
